@@ -64,7 +64,8 @@ PROP = {'drive': ['Dsl'],
                            'strconv.Atoi: no digits and the 64-bit range are modelled in readInt16; in glyph lists '
                            'overflow is not modelled separately (values of 65536 and above are rejected anyway)',
                            'Go maps in readGsub1-4 are association lists; results do not depend on iteration order '
-                           '(coverage is sorted, isConstDelta is order-independent)',
+                           '(coverage is sorted, isConstDelta is order-independent); on the real code this is the D predicate of '
+                           'dsl.rtrepeat / dsl.parserepeat: 24 parses of every GSUB 1 case must all give the model outcome',
                            'error messages are compared by class (leading words of the format string) and line, '
                            'not by full text'],
  'assumptions': ['Dom (round trip): FontOk (fewer than 65536 glyphs; non-empty glyph names pairwise distinct and each the '
